@@ -18,7 +18,7 @@ ASSUMPTIONS = [
     "cfg(kani) harness modules appended to scratch copies; executable text unchanged",
 ]
 NOT_DECIDED = [
-    "a *different* lawful order (e.g. None last, or prefix-related lists ordered the other way) is not distinguished from a defect by the Verus obligations for Vec<T>: they pin the order the code implements today (lexicographic, prefix first); for Option<T> the complete Kani twin turns such a change into 'undecided'",
+    "orders other than the four lawful combinations {None first|last} x {prefix first|last} (e.g. length-first ordering of lists) are not recognised by the Verus obligations and would be reported as a failed obligation",
     "DoubleOps for BTreeMap<K,V> (iterator chains with closures: outside Verus's subset; CBMC gives no answer for two entries in 7 min, nor for at most one entry in 10 min)",
     "Vec hash law beyond length 2",
     "which fields the generator decorates (C02/C03 territory)",
@@ -27,8 +27,20 @@ NOT_DECIDED = [
 def VO(name, vfn, fn, desc, twin=None):
     return dict(name=name, vfn=vfn, functions=[P + "::" + fn] if fn else [], desc=desc, twin=twin or [])
 
+# The property asks for *a* lawful total order, not for a particular one. If the code stops matching the primary
+# specification (None first; a proper prefix first), the unit is re-verified against the other lawful choices.
+_NONE_LAST = ("        (Some(_), None) => Ordering::Greater,   // empty optional sorts before a present one\n        (None, Some(_)) => Ordering::Less,",
+              "        (Some(_), None) => Ordering::Less,   // variant: empty optional sorts after a present one\n        (None, Some(_)) => Ordering::Greater,")
+_PREFIX_LAST = ("    else if a.len() == 0 { Ordering::Less }\n    else if b.len() == 0 { Ordering::Greater }",
+                "    else if a.len() == 0 { Ordering::Greater }\n    else if b.len() == 0 { Ordering::Less }")
+_VARIANTS = [
+    dict(name="none-last", desc="Option: None sorts after Some", subst=[_NONE_LAST]),
+    dict(name="prefix-last", desc="Vec: a proper prefix sorts after the longer list", subst=[_PREFIX_LAST]),
+    dict(name="none-last+prefix-last", desc="both", subst=[_NONE_LAST, _PREFIX_LAST]),
+]
+
 VERUS_UNITS = [dict(
-    name="doubleops", template="doubleops.verus.rs",
+    name="doubleops", template="doubleops.verus.rs", variants=_VARIANTS,
     obligations=[
         VO("C14.V.option.cmp.post", "Option::cmp", "DoubleOps for Option<T>::cmp", "Option<T>::cmp == spec (None < Some, Some/Some by element)", ["C14.K.option_f64.laws"]),
         VO("C14.V.option.eq.post", "Option::eq", "DoubleOps for Option<T>::eq", "Option<T>::eq == spec", ["C14.K.option_f64.laws"]),
